@@ -306,6 +306,11 @@ def build(r, layout, fname, opener, eol):
         b.line_text("<root>")
     if fname.endswith(".go"):
         b.line_text("package main")
+    if r.random() < 0.06 and not fname.endswith((".md", ".markdown", ".html", ".xml")):
+        # everything sits beyond line 65,536
+        filler = TEMPLATES[fname.rsplit(".", 1)[1]] % "filler"
+        for _ in range(66000):
+            b.line_text(filler)
     w = _W(b, r, layout, fname, opener, indent)
     md = fname.endswith((".md", ".markdown"))
     if layout == "md-nested":
